@@ -33,10 +33,27 @@ R2_PER_S = 5_000_000      # phase 2: timeout_s * R2_PER_S
 
 
 def jobs_default():
+  """Worker processes for one discharge call: the CPUs we may use, fewer when the machine is already busy or short of
+  memory (several checks running side by side): verdicts do not depend on this number, only the elapsed time does."""
   try:
-    return max(2, min(16, len(os.sched_getaffinity(0))))
+    n = max(2, min(16, len(os.sched_getaffinity(0))))
   except AttributeError:
-    return 8
+    n = 8
+  try:
+    load = os.getloadavg()[0]
+    if load > n:
+      n = max(2, int(n * n / load))
+  except OSError:
+    pass
+  try:
+    with open('/proc/meminfo') as f:
+      for line in f:
+        if line.startswith('MemAvailable:'):
+          avail_gb = int(line.split()[1]) / 1e6
+          n = max(1, min(n, int(avail_gb / 2)))     # ~2 GB per solver process, worst case
+  except OSError:
+    pass
+  return n
 
 
 def _read_exact(fd, n):
@@ -282,15 +299,23 @@ def _second(args):
   return st, info, backend, time.time() - t0
 
 
-def quick_sat(assumptions, extra, rlimit=R_QUICK, hard_s=60):
-  """Path-feasibility query in a forked child: z3.sat / z3.unsat / z3.unknown."""
+def quick_sat(assumptions, extra, rlimit=R_QUICK, hard_s=900):
+  """Path-feasibility query in a forked child: z3.sat / z3.unsat / z3.unknown.
+
+  The answer decides which paths are explored (and with that the obligation names), so it must not depend on machine
+  load: the budget is the deterministic resource counter, and a child that dies without an answer (killed by the
+  system under memory pressure, or at the generous wall-clock backstop) is retried."""
   def work(_):
     s = z3.Solver()
     s.set('rlimit', rlimit)
     s.add(*assumptions)
     s.add(extra)
     return str(s.check())
-  res = fork_map(1, work, jobs=1, hard_s=hard_s)[0]
+  for _attempt in range(3):
+    res = fork_map(1, work, jobs=1, hard_s=hard_s)[0]
+    if res in ('sat', 'unsat', 'unknown'):
+      break
+    time.sleep(1.0)
   return {'sat': z3.sat, 'unsat': z3.unsat}.get(res, z3.unknown)
 
 
@@ -305,7 +330,7 @@ def discharge(obligations, timeout_s=60, jobs=None, seed=0, use_cvc5=True,
     rlimit = R1 if first_ms is None else max(200_000, int(first_ms * 4500))
   pending = []
   results = fork_map(len(obligations), lambda i: _solve(i, rlimit, seed, single), jobs=jobs,
-                     hard_s=max(300, 60 * (1 if single else 5)))
+                     hard_s=3600)
   for o, res in zip(obligations, results):
     o.backend = 'z3-%s' % z3.get_version_string()
     o.model, o.reason, o.rlimit = None, '', 0
